@@ -1,12 +1,307 @@
-//! C29 — not built yet.
-use crate::runner::{Outcome, Summary};
-use crate::Ctx;
-use serde_json::Value;
+//! C29 — gate depth equals the longest chain of qualifying gates.
+//!
+//! replay: TLC cases {body:[{k,qs}], failed, depth:[d1..dK]} from spec/mc/MC_GateDepth.tla are executed on
+//!         `QubitGraph::try_from_basic_block` + `gate_depth(k)`.  The model enumerates bodies up to qubit
+//!         symmetry (qubits first mentioned in the order 0,1,2,..) and lists gate operands ascending, so
+//!         every case is replayed under three concrete spellings (identity; operands reversed + a fixed
+//!         relabeling; operands rotated + a relabeling picked from the case) to undo the reduction.
+//! drive:  seeded random bodies (longer, 6 qubits, gates of arity 1..4) recorded as
+//!         reset{body,res} / depth{k,depth} events for spec/trace/GateDepthTrace.tla.
+//!
+//! The verdict predicate is the statement itself (longest chain by dynamic programming on the abstract
+//! body, `chain_depth`), independent of the model's expected value: real != statement -> violation;
+//! real == statement but != model -> divergence.
 
-pub fn replay(_ctx: &Ctx, _case: &Value) -> Outcome {
-    panic!("C29: replay not implemented")
+use crate::runner::{Outcome, Summary, Violation};
+use crate::util::{self, arr, instr, s};
+use crate::Ctx;
+use quil_rs::instruction::DefaultHandler;
+use quil_rs::program::analysis::{ControlFlowGraph, QubitGraph};
+use quil_rs::Program;
+use rand::Rng;
+use serde_json::{json, Value};
+
+pub const MAX_K: usize = 4;
+
+#[derive(Clone, Debug)]
+pub struct AbsInstr {
+    pub k: String,
+    pub qs: Vec<u64>,
 }
 
-pub fn drive(_ctx: &Ctx) -> Summary {
-    panic!("C29: drive not implemented")
+fn parse_body(v: &[Value]) -> Vec<AbsInstr> {
+    v.iter()
+        .map(|i| AbsInstr {
+            k: s(i, "k"),
+            qs: arr(i, "qs").iter().map(|q| q.as_u64().expect("qubit number")).collect(),
+        })
+        .collect()
+}
+
+fn body_json(b: &[AbsInstr]) -> Value {
+    Value::Array(b.iter().map(|i| json!({"k": i.k, "qs": i.qs})).collect())
+}
+
+/// Quil text of an abstract instruction; `pos` only varies the spelling (the builder looks at the class
+/// and the qubits alone).
+fn text_of(i: &AbsInstr, pos: usize) -> String {
+    let qs = i.qs.iter().map(|q| q.to_string()).collect::<Vec<_>>().join(" ");
+    match i.k.as_str() {
+        "Gate" => {
+            let n = i.qs.len();
+            let name = match (n, pos % 3) {
+                (1, 0) => "X".to_string(),
+                (1, 1) => "RZ(pi/2)".to_string(),
+                (1, _) => "DAGGER H".to_string(),
+                (2, 0) => "CNOT".to_string(),
+                (2, 1) => "CPHASE(pi)".to_string(),
+                (3, 0) => "CCNOT".to_string(),
+                (3, 1) => "CSWAP".to_string(),
+                _ => format!("{}X", "CONTROLLED ".repeat(n - 1)),
+            };
+            format!("{name} {qs}")
+        }
+        "Measure" => {
+            if pos % 2 == 0 {
+                format!("MEASURE {qs} ro[0]")
+            } else {
+                format!("MEASURE {qs}")
+            }
+        }
+        "Classical" => ["MOVE r[0] 1", "NOP", "WAIT", "ADD r[0] 1", "NOT b[0]", "EXCHANGE r[0] r[1]"][pos % 6].to_string(),
+        "Unsupported" => {
+            if i.qs.is_empty() {
+                ["PRAGMA foo", "RESET", "SHIFT-PHASE 0 \"rf\" 1.0", "PULSE 0 \"rf\" flat(duration: 1.0, iq: 1.0)"][pos % 4]
+                    .to_string()
+            } else {
+                match pos % 3 {
+                    0 => format!("FENCE {qs}"),
+                    1 => format!("RESET {}", i.qs[0]),
+                    _ => format!("DELAY {qs} 1.0"),
+                }
+            }
+        }
+        other => panic!("unknown instruction class {other}"),
+    }
+}
+
+/// The statement: the largest number of gates on >= k qubits along any chain in which consecutive
+/// instructions share a qubit, in program order, with no instruction on that qubit between them.
+pub fn chain_depth(body: &[AbsInstr], k: usize) -> usize {
+    let n = body.len();
+    let mut t = vec![0usize; n];
+    for j in 0..n {
+        let mut best = 0;
+        for i in 0..j {
+            let adjacent = body[i].qs.iter().any(|q| {
+                body[j].qs.contains(q) && body[i + 1..j].iter().all(|m| !m.qs.contains(q))
+            });
+            if adjacent {
+                best = best.max(t[i]);
+            }
+        }
+        let w = (body[j].k == "Gate" && body[j].qs.len() >= k) as usize;
+        t[j] = best + w;
+    }
+    t.into_iter().max().unwrap_or(0)
+}
+
+/// number of source-to-sink paths of the multigraph the builder creates (path_fold visits every one)
+fn path_count(body: &[AbsInstr]) -> u64 {
+    let n = body.len();
+    let mut succ: Vec<Vec<usize>> = vec![vec![]; n];
+    let mut has_pred = vec![false; n];
+    for j in 0..n {
+        for q in &body[j].qs {
+            if let Some(i) = (0..j).rev().find(|&i| body[i].qs.contains(q)) {
+                succ[i].push(j);
+                has_pred[j] = true;
+            }
+        }
+    }
+    let mut cnt = vec![0u64; n];
+    for i in (0..n).rev() {
+        cnt[i] = if succ[i].is_empty() { 1 } else { succ[i].iter().map(|&j| cnt[j]).fold(0u64, |a, b| a.saturating_add(b)) };
+    }
+    (0..n).filter(|&i| !has_pred[i]).map(|i| cnt[i]).fold(0u64, |a, b| a.saturating_add(b))
+}
+
+/// Run the real code: Ok(depths for k = 1..=MAX_K) or Err(text) when the graph cannot be built.
+/// `None` when the program has no basic block (empty body).
+fn run_real(body: &[AbsInstr]) -> Option<Result<Vec<usize>, String>> {
+    let mut program = Program::new();
+    for (pos, i) in body.iter().enumerate() {
+        program.add_instruction(instr(&text_of(i, pos)));
+    }
+    let graph = ControlFlowGraph::from(&program);
+    let blocks = graph.into_blocks();
+    if blocks.len() != 1 {
+        if body.is_empty() {
+            return None;
+        }
+        panic!("harness: body is not one basic block ({} blocks)", blocks.len());
+    }
+    if blocks[0].instructions().len() != body.len() {
+        panic!("harness: block has {} instructions, body {}", blocks[0].instructions().len(), body.len());
+    }
+    Some(match QubitGraph::try_from_basic_block(&blocks[0], &DefaultHandler) {
+        Ok(g) => Ok((1..=MAX_K).map(|k| g.gate_depth(k)).collect()),
+        Err(e) => Err(e.to_string()),
+    })
+}
+
+fn spelled(body: &[AbsInstr], variant: usize, salt: u64) -> Vec<AbsInstr> {
+    const PERMS: [[u64; 6]; 4] = [[0, 1, 2, 3, 4, 5], [5, 2, 0, 3, 1, 4], [3, 0, 7, 1, 9, 2], [1, 12, 0, 2, 5, 3]];
+    let perm = match variant {
+        0 => PERMS[0],
+        1 => PERMS[1],
+        _ => PERMS[2 + (salt % 2) as usize],
+    };
+    body.iter()
+        .map(|i| {
+            let mut qs: Vec<u64> = i.qs.iter().map(|&q| perm[q as usize % 6] + 20 * (q / 6)).collect();
+            match variant {
+                0 => {}
+                1 => qs.reverse(),
+                _ => {
+                    if !qs.is_empty() {
+                        qs.rotate_left(1)
+                    }
+                }
+            }
+            AbsInstr { k: i.k.clone(), qs }
+        })
+        .collect()
+}
+
+fn shares_qubit(body: &[AbsInstr]) -> bool {
+    (0..body.len()).any(|j| (0..j).any(|i| body[i].qs.iter().any(|q| body[j].qs.contains(q))))
+}
+
+/// compare one concrete body with the statement (and with the model's expectation, if given)
+fn judge(o: &mut Outcome, body: &[AbsInstr], want: Option<(&[usize], bool)>, what: &str) {
+    let supported = body.iter().all(|i| i.k != "Unsupported");
+    let real = match run_real(body) {
+        None => {
+            o.count("empty_body");
+            return;
+        }
+        Some(r) => r,
+    };
+    o.sub_evaluations += 1;
+    match real {
+        Err(e) => {
+            if supported {
+                o.violate(
+                    Violation::new("gate_depth", json!((1..=MAX_K).map(|k| chain_depth(body, k)).collect::<Vec<_>>()), json!({"err": e}))
+                        .note(format!("{what}: no graph for a block of gates, measurements and classical instructions: {}", body_json(body))),
+                );
+            } else if let Some((_, false)) = want {
+                o.diverge(format!("{what}: model builds a graph, code returns Err({e})"));
+            }
+        }
+        Ok(depths) => {
+            if !supported {
+                // outside the statement's quantifier; the model says Err
+                o.diverge(format!("{what}: model says unsupported, code built a graph for {}", body_json(body)));
+                return;
+            }
+            let stated: Vec<usize> = (1..=MAX_K).map(|k| chain_depth(body, k)).collect();
+            if depths != stated {
+                let k = (0..MAX_K).find(|&k| depths[k] != stated[k]).unwrap() + 1;
+                o.violate(
+                    Violation::new(&format!("gate_depth({k})"), json!(stated), json!(depths))
+                        .note(format!("{what}: body {}", body_json(body))),
+                );
+            } else if let Some((w, _)) = want {
+                if w != depths.as_slice() {
+                    o.diverge(format!("{what}: code and statement agree on {depths:?}, model expects {w:?}"));
+                }
+            }
+        }
+    }
+}
+
+pub fn replay(_ctx: &Ctx, case: &Value) -> Outcome {
+    if let Some(h) = case.get("history") {
+        // a history rejected by trace validation: judge its body against the statement
+        let body = parse_body(h[0]["body"].as_array().expect("reset event with body"));
+        let mut o = Outcome::ok(shares_qubit(&body));
+        judge(&mut o, &body, None, "recorded body");
+        return o;
+    }
+    let body = parse_body(arr(case, "body"));
+    let want: Vec<usize> = arr(case, "depth").iter().map(|d| d.as_u64().unwrap() as usize).collect();
+    let failed = case["failed"].as_bool().expect("failed");
+    let mut o = Outcome::ok(shares_qubit(&body));
+    let salt = crate::runner::hash_line(&case.to_string());
+    for variant in 0..3 {
+        let b = spelled(&body, variant, salt);
+        judge(&mut o, &b, Some((&want, failed)), &format!("spelling {variant}"));
+    }
+    o
+}
+
+// ------------------------------------------------------------------------------------------- drive
+
+fn random_instr(r: &mut impl Rng, nq: u64) -> AbsInstr {
+    let pick = |r: &mut dyn rand::RngCore, n: usize| -> Vec<u64> {
+        let mut qs: Vec<u64> = vec![];
+        while qs.len() < n {
+            let q = r.gen_range(0..nq);
+            if !qs.contains(&q) {
+                qs.push(q);
+            }
+        }
+        qs
+    };
+    match r.gen_range(0..100) {
+        0..=34 => AbsInstr { k: "Gate".into(), qs: pick(r, 1) },
+        35..=64 => AbsInstr { k: "Gate".into(), qs: pick(r, 2) },
+        65..=74 => AbsInstr { k: "Gate".into(), qs: pick(r, 3) },
+        75..=79 => AbsInstr { k: "Gate".into(), qs: pick(r, 4.min(nq as usize)) },
+        80..=89 => AbsInstr { k: "Measure".into(), qs: pick(r, 1) },
+        90..=97 => AbsInstr { k: "Classical".into(), qs: vec![] },
+        98 => AbsInstr { k: "Unsupported".into(), qs: vec![] },
+        _ => AbsInstr { k: "Unsupported".into(), qs: pick(r, 1) },
+    }
+}
+
+pub fn drive(ctx: &Ctx) -> Summary {
+    let n = ctx.arg_u64("n", 100);
+    let max_len = ctx.arg_u64("len", 12) as usize;
+    let nq = ctx.arg_u64("qubits", 6);
+    let max_paths = ctx.arg_u64("max-paths", 20000);
+    let path = ctx.arg_str("out").expect("--out");
+    let mut out = std::io::BufWriter::new(std::fs::File::create(path).expect("create trace"));
+    let mut rng = util::rng(ctx.seed, 29);
+    let mut sum = Summary::default();
+    let mut seen = std::collections::HashSet::new();
+    for h in 0..n {
+        let len = if h < 3 { 1 + h as usize } else { rng.gen_range(2..=max_len) };
+        let mut body: Vec<AbsInstr> = vec![];
+        for _ in 0..len {
+            body.push(random_instr(&mut rng, nq));
+            // path_fold enumerates every path: keep the real run bounded
+            if path_count(&body) > max_paths {
+                body.pop();
+                break;
+            }
+        }
+        let mut o = Outcome::ok(shares_qubit(&body));
+        let real = run_real(&body).expect("non-empty body");
+        util::emit(&mut out, &json!({"ev": "reset", "body": body_json(&body),
+                                     "res": if real.is_ok() { "ok" } else { "err" }}));
+        o.count("events");
+        if let Ok(depths) = &real {
+            for (k, d) in depths.iter().enumerate() {
+                util::emit(&mut out, &json!({"ev": "depth", "k": k + 1, "depth": d}));
+                o.count("events");
+            }
+        }
+        let case = json!({"body": body_json(&body)});
+        let distinct = seen.insert(case.to_string());
+        sum.absorb(&case, &o, distinct);
+    }
+    sum
 }
